@@ -36,7 +36,10 @@ def build_script(steps, cuts, first_eager, b2b):
         elif st_[0] == 'user':
             actions.append({'k': 'user', 'prim': convs.user_prim(st_[1])})
         elif st_[0] == 'close':
-            actions.append({'k': 'close', 'eager': False})
+            # the peer's close is part of the byte stream's timing: in back-to-back mode it is already pending
+            # when the provider looks at the socket again
+            prev_net = bool(actions) and actions[-1]['k'] == 'seg'
+            actions.append({'k': 'close', 'eager': bool(cuts is not None and b2b and prev_net)})
     return actions
 
 
